@@ -67,31 +67,65 @@ def _solo(specs_lists, hashseeds=None):
     return outs
 
 
+SAME_LEN_DZ = [[0.1] * 12, [0.05] * 4 + [0.1] * 4 + [0.2] * 4, [0.15] * 12, [0.1] * 6 + [0.2] * 6, [0.05] * 2 + [0.1] * 8 + [0.15] * 2]
+
+
 def _variants(rng, base, k):
-    """specs that collide with `base` on process-global objects"""
+    """specs that collide with `base` on process-global objects or on anything a too-coarse cache key might ignore:
+    each variant differs from the base in ONE attribute and agrees on everything else (same names, same lengths)"""
     out = [base]
-    while len(out) < k:
+    tries = 0
+    while len(out) < k and tries < 50:
+        tries += 1
         s = clone(base)
         r = rng.random()
         name = s["crop"]["name"]
-        if r < 0.3:
-            s["crop"]["overrides"] = dict(s["crop"].get("overrides") or {}, **{rng.choice(["CCx", "Zmax", "WP", "HI0"]): rng.choice([0.7, 0.85, 0.9])})
-            if "Zmax" in s["crop"]["overrides"]:
-                s["crop"]["overrides"]["Zmax"] = rng.choice([0.8, 1.0])
-            if "WP" in s["crop"]["overrides"]:
-                s["crop"]["overrides"]["WP"] = rng.choice([15.0, 30.0])
-            if "HI0" in s["crop"]["overrides"]:
-                s["crop"]["overrides"]["HI0"] = rng.choice([0.3, 0.45])
-        elif r < 0.5 and s["soil"]["type"] not in ("custom", "ac_TunisLocal"):
-            s["soil"]["kwargs"] = dict(s["soil"].get("kwargs") or {}, dz=rng.choice([[0.1] * 12, [0.05] * 4 + [0.1] * 10, [0.1] * 20]))
-        elif r < 0.65:
+        if r < 0.18:
+            key = rng.choice(["CCx", "Zmax", "WP", "HI0", "Aer", "Zmin"])
+            val = {"CCx": rng.choice([0.7, 0.85, 0.9]), "Zmax": rng.choice([0.8, 1.0]), "WP": rng.choice([15.0, 30.0]),
+                   "HI0": rng.choice([0.3, 0.45]), "Aer": rng.choice([2, 8]), "Zmin": rng.choice([0.2, 0.25])}[key]
+            s["crop"]["overrides"] = dict(s["crop"].get("overrides") or {}, **{key: val})
+        elif r < 0.36 and s["soil"]["type"] not in ("custom", "ac_TunisLocal"):
+            # same soil type, same NUMBER of compartments, different thicknesses (and sometimes a different number)
+            pool = SAME_LEN_DZ if rng.random() < 0.75 else [[0.05] * 4 + [0.1] * 10, [0.1] * 20]
+            cur = (s["soil"].get("kwargs") or {}).get("dz", [0.1] * 12)
+            cand = [d for d in pool if d != cur]
+            s["soil"]["kwargs"] = dict(s["soil"].get("kwargs") or {}, dz=list(rng.choice(cand)))
+        elif r < 0.46 and s["soil"]["type"] != "custom":
+            key = rng.choice(["cn", "z_cn", "adj_cn", "z_top", "rew", "adj_rew"])
+            val = {"cn": rng.choice([50, 80]), "z_cn": rng.choice([0.2, 0.5]), "adj_cn": rng.choice([0, 1]), "z_top": rng.choice([0.2, 0.3]),
+                   "rew": rng.choice([5, 12]), "adj_rew": rng.choice([0, 1])}[key]
+            kw = dict(s["soil"].get("kwargs") or {})
+            if kw.get(key) == val:
+                continue
+            kw[key] = val
+            s["soil"]["kwargs"] = kw
+        elif r < 0.56:
             twin = name[:-3] if name.endswith("GDD") else name + "GDD"
-            if twin in CROP_INFO:
-                s["crop"]["name"] = twin
-        elif r < 0.8:
+            if twin not in CROP_INFO:
+                continue
+            s["crop"]["name"] = twin
+        elif r < 0.66:
             s["gw"] = None if s.get("gw") else {"water_table": "Y", "method": "Constant", "dates": [s["start"].replace("/", "")], "values": [rng.choice([1.0, 2.0])]}
-        else:
+        elif r < 0.74 and s.get("gw"):
+            s["gw"] = dict(s["gw"], values=[round(v + rng.choice([0.3, 0.7]), 2) for v in s["gw"]["values"]])
+        elif r < 0.82:
             s["irr"] = {"method": rng.choice([0, 1, 4]), "kwargs": {}, "schedule": None}
+        elif r < 0.90:
+            iw = s["iwc"]
+            if iw["wc_type"] == "Prop":
+                iw["value"] = [rng.choice([v2 for v2 in ("WP", "FC", "SAT") if v2 != v]) for v in iw["value"]]
+            elif iw["wc_type"] == "Pct":
+                iw["value"] = [max(0, min(100, v + rng.choice([-20, 20]))) for v in iw["value"]]
+            else:
+                continue
+        else:
+            # same dates, different weather values
+            w = s["weather"]
+            w["precip"] = [round(x * 1.5, 1) for x in w["precip"]]
+            w["et0"] = [round(max(0.1, x * 0.8), 2) for x in w["et0"]]
+        if any(canon(s) == canon(o) for o in out):
+            continue
         out.append(s)
     return out
 
